@@ -246,6 +246,91 @@ impl Check for ZeroDivisor {
     }
 }
 
+// ------------------------------------------------------------------ sequences of divisions by sparse divisors
+#[derive(Serialize, Deserialize, Clone, Debug)]
+pub struct SeqPt {
+    n: usize,
+    /// shapes of the first and the second divisor (SHAPES)
+    first: usize,
+    second: usize,
+    complex: bool,
+}
+pub struct DivisorSequences;
+const SHAPES: [&str; 5] = ["x^n + 1", "x^n + x", "x^n + x^(n-1)", "x^n - 2 x^(n/2)", "x^n - x^(n-1) + 3 (three terms)"];
+fn sparse_divisor(shape: usize, n: usize) -> Vec<C> {
+    let mut d = vec![C::new(0.0, 0.0); n + 1];
+    d[n] = C::new(1.0, 0.0);
+    match shape {
+        0 => d[0] += 1.0,
+        1 => d[1] += 1.0,
+        2 => d[n - 1] += 1.0,
+        3 => d[n / 2] += -2.0,
+        _ => {
+            d[n - 1] += -1.0;
+            d[0] += 3.0;
+        }
+    }
+    d
+}
+fn seq_point<N: Fld>(p: &SeqPt) -> Outcome {
+    let mut o = Outcome::new();
+    let a: Vec<C> = (0..=(2 * p.n + 1)).map(|k| C::new(((k * 7 + 3) % 11) as f64 - 5.0, if N::COMPLEX { ((k * 5 + 1) % 7) as f64 - 3.0 } else { 0.0 })).collect();
+    let pa: Polynomial<N> = mk(&a);
+    let (d1, d2) = (sparse_divisor(p.first, p.n), sparse_divisor(p.second, p.n));
+    let ctx = || format!("degree {}: dividing by {} and then, on the same thread, by {} ({})", p.n, SHAPES[p.first], SHAPES[p.second], N::NAME);
+    let res = vcore::guard(|| {
+        let _ = pa.divide(&mk::<N>(&d1));
+        pa.divide(&mk::<N>(&d2)).map(|(q, r)| (asc(&q), asc(&r)))
+    });
+    o.executions = 2;
+    match res {
+        Err(m) => o.viol("polynomial::divide", "no-panic", format!("{}: {}", ctx(), m)),
+        Ok(Err(e)) => o.viol("polynomial::divide", "ok-for-nonzero-divisor", format!("{}: Err({})", ctx(), e)),
+        Ok(Ok((q, r))) => {
+            let qd = school(&q, &d2);
+            let get = |v: &[C], k: usize| if k < v.len() { v[k] } else { C::new(0.0, 0.0) };
+            let len = a.len().max(qd.len()).max(r.len());
+            let defect = (0..len).map(|k| (get(&a, k) - get(&qd, k) - get(&r, k)).norm()).fold(0.0, f64::max);
+            let bound = 32.0 * EPS * (a.len() as f64) * (norm1(&q) * norm1(&d2) + norm1(&a)) + 1e-10;
+            if !(defect <= bound) {
+                o.viol("polynomial::divide", "dividend=quotient*divisor+remainder", format!("{}: the second division has defect {:e} (bound {:e})", ctx(), defect, bound));
+            }
+            if r.len() > p.n && r[p.n..].iter().any(|c| c.norm() > bound) {
+                o.viol("polynomial::divide", "remainder-degree-below-divisor", format!("{}: remainder {:?}", ctx(), r));
+            }
+        }
+    }
+    o.sig = format!("n{}|{}", p.n, N::NAME);
+    o
+}
+impl Check for DivisorSequences {
+    type P = SeqPt;
+    fn name(&self) -> &'static str {
+        "divisor-sequences"
+    }
+    fn rule(&self) -> String {
+        format!("two divisions in a row on the same thread: a fixed dense dividend of degree 2n+1 divided by every ordered pair of different sparse divisors of the same degree n = 2..=6 from {:?} (several pairs have the same number of non-zero terms at different powers); the SECOND division is judged by the reconstruction identity; signature = (degree, field)", SHAPES)
+    }
+    fn points(&self, _t: Tier) -> Vec<SeqPt> {
+        let mut v = vec![];
+        for n in 2..=6 {
+            for first in 0..SHAPES.len() {
+                for second in 0..SHAPES.len() {
+                    if first != second {
+                        for complex in [false, true] {
+                            v.push(SeqPt { n, first, second, complex });
+                        }
+                    }
+                }
+            }
+        }
+        v
+    }
+    fn run(&self, p: &SeqPt) -> Outcome {
+        if p.complex { seq_point::<C>(p) } else { seq_point::<f64>(p) }
+    }
+}
+
 pub fn main(mut r: Report) -> ! {
     r.assumptions = vec![
         "reference product quotient*divisor is the harness's own schoolbook product in f64".into(),
@@ -253,5 +338,6 @@ pub fn main(mut r: Report) -> ! {
     ];
     r.run(&Division);
     r.run(&ZeroDivisor);
+    r.run(&DivisorSequences);
     r.finish()
 }
